@@ -39,6 +39,7 @@ pub struct World {
     order: Vec<String>,
     clients: BTreeMap<String, ClientOp>,
     client_rt: Runtime,
+    task_rt: Runtime,
     next_h: u64,
     id_base: Option<u64>,
     pub inapplicable: u64,
@@ -77,11 +78,15 @@ impl World {
         NOW.store(0, Ordering::SeqCst);
         #[cfg(feature = "test-utils")]
         rsactor::reset_dead_letter_count();
+        let task_rt = new_rt();
+        *TASK_RT.lock().unwrap_or_else(|e| e.into_inner()) = Some(task_rt.handle().clone());
+        *TASKS.lock().unwrap_or_else(|e| e.into_inner()) = Some(Default::default());
         World {
             actors: BTreeMap::new(),
             order: Vec::new(),
             clients: BTreeMap::new(),
             client_rt: new_rt(),
+            task_rt,
             next_h: 1,
             id_base: None,
             inapplicable: 0,
@@ -328,6 +333,22 @@ impl World {
                 });
                 let now = NOW.fetch_add(d, Ordering::SeqCst) + d;
                 emit(json!({"e": "Advance", "now": now}));
+            }
+            "task" => {
+                let m = cmd["m"].as_u64().unwrap_or(0);
+                let out = cmd["out"].as_str().unwrap_or("ok").to_string();
+                let tx = TASKS.lock().unwrap_or_else(|e| e.into_inner()).as_mut().and_then(|t| t.remove(&m));
+                match tx {
+                    Some(tx) => {
+                        let _ = tx.send(out.clone());
+                        self.task_rt.block_on(async {
+                            tokio::task::yield_now().await;
+                            tokio::task::yield_now().await;
+                        });
+                        emit(json!({"e": "TaskEnd", "m": m, "out": out}));
+                    }
+                    None => self.inappl("task: no such running task"),
+                }
             }
             "clone" | "drop" | "down" | "up" | "alive" | "ident" | "erase" => self.handle_op(c, cmd),
             "quiesce" => {
@@ -584,8 +605,15 @@ impl World {
         self.sample_all();
     }
 
+    fn running_tasks(&self) -> Vec<u64> {
+        let mut v: Vec<u64> = TASKS.lock().unwrap_or_else(|e| e.into_inner()).as_ref().map(|t| t.keys().cloned().collect()).unwrap_or_default();
+        v.sort();
+        v
+    }
+
     fn busy(&self) -> bool {
         !PENDING.lock().unwrap().is_empty()
+            || !self.running_tasks().is_empty()
             || self.actors.values().any(|s| s.jh.is_some() && matches!(s.sh.parked(), "Start" | "Handler" | "Stop"))
     }
 
@@ -603,6 +631,9 @@ impl World {
                     _ => "none",
                 };
                 self.exec(&json!({"c": "burst", "a": a, "dir": dir, "tail": true}));
+            }
+            for m in self.running_tasks() {
+                self.exec(&json!({"c": "task", "m": m, "out": "ok", "tail": true}));
             }
             let cls: Vec<String> = self.clients.keys().cloned().collect();
             for cl in &cls {
@@ -682,6 +713,8 @@ pub fn run_schedule(run: u64, steps: &[Value], erased: bool, feats: &Value) -> (
     let events = crate::log::take_all();
     with_handles(|h| h.clear());
     *SAMPLERS.lock().unwrap() = None;
+    *TASKS.lock().unwrap_or_else(|e| e.into_inner()) = None;
+    *TASK_RT.lock().unwrap_or_else(|e| e.into_inner()) = None;
     drop(w);
     let _ = crate::log::take_all();
     (events, drifts, inappl)
